@@ -31,19 +31,33 @@
         early error (B.1.4.1): any source text matched by ExtendedAtom :: InvalidBracedQuantifier.  Hence the production has
         no constructor; what it contributes is the ordered-choice side condition of At_char: without u a unit is an
         ExtendedPatternCharacter only where InvalidBracedQuantifier does not match (it can only match at a `{`).
+     ExtendedAtom    :: ... | `\` [lookahead = c]      (the backslash alone, where `\` AtomEscape does not match: At_backslash_c)
      AtomEscape[U]   :: CharacterClassEscape | CharacterEscape[?U]          (no DecimalEscape, no `k` GroupName)
      CharacterClassEscape :: one of d D s S w W                             (no property escapes)
-     CharacterEscape[U]   :: ControlEscape | IdentityEscape[?U]             (no c-letter, 0, hex, unicode, legacy octal)
+     CharacterEscape[U]   :: ControlEscape | `c` ControlLetter | `0` [lookahead not a DecimalDigit] | HexEscapeSequence
+                           | RegExpUnicodeEscapeSequence[?U] | IdentityEscape[?U]        (no LegacyOctalEscapeSequence yet)
      ControlEscape   :: one of f n r t v
+     ControlLetter   :: one of a-z A-Z
+     HexEscapeSequence :: `x` HexDigit HexDigit
+     RegExpUnicodeEscapeSequence[U] :: [+U] `u` HexLeadSurrogate `\u` HexTrailSurrogate | [+U] `u` HexLeadSurrogate
+                           | [+U] `u` HexTrailSurrogate | [+U] `u` HexNonSurrogate | [~U] `u` Hex4Digits | [+U] `u{` CodePoint `}`
+        the three single forms with u and the form without u are one constructor (UE_hex4: `u` Hex4Digits); the standard's
+        association rule (a `\u` HexTrailSurrogate belongs to the nearest preceding unpaired `u` HexLeadSurrogate) is its side
+        condition: a lone lead surrogate escape is not followed by a trail surrogate escape
+     CodePoint       :: HexDigits but only if MV of HexDigits <= 0x10FFFF
      IdentityEscape[U] :: [+U] SyntaxCharacter | [+U] `/`
         Annex B [~U]:   SourceCharacterIdentityEscape[~N] :: SourceCharacter but not `c`
                         (without u the fragment has no group names, so the [N] parameter is absent)
+        Annex B ordered choice: without u IdentityEscape is considered only where the earlier alternatives of CharacterEscape
+        do not match: not `0`, not `x` before two hex digits, not `u` before four hex digits (side condition of CE_identity;
+        for the other overlaps -- d, f, ... -- both alternatives match the same text)
      Annex B resolves its ambiguities by the order of the alternatives: backslash-b and backslash-B are matched by
      Assertion, which precedes ExtendedAtom in Term, so they are never atoms (side condition of At_escape).
      SyntaxCharacter :: one of ^ $ \ . * + ? ( ) [ ] { } |
      PatternCharacter:: SourceCharacter but not SyntaxCharacter
      ExtendedPatternCharacter :: SourceCharacter but not one of ^ $ \ . * + ? ( ) [ |
-   Early errors of the fragment: the two above (bounds out of order; InvalidBracedQuantifier). *)
+   Early errors of the fragment: the two above (bounds out of order; InvalidBracedQuantifier); the CodePoint bound is part
+   of the production. *)
 From Coq Require Import List NArith Bool.
 Import ListNotations.
 Open Scope N_scope.
@@ -70,10 +84,7 @@ Definition control_escape (c : N) : bool := existsb (N.eqb c) [102; 110; 114; 11
 Definition identity_escape (u : bool) (c : N) : bool :=
   if u then syntax_character c || (c =? g_slash) else negb (c =? 99).                              (* not c *)
 Definition assertion_escape (c : N) : bool := (c =? 98) || (c =? 66).                              (* b B *)
-Inductive AtomEscape (u : bool) : list N -> Prop :=
-| AE_class c : character_class_escape c = true -> AtomEscape u [c]
-| AE_control c : control_escape c = true -> AtomEscape u [c]
-| AE_identity c : identity_escape u c = true -> AtomEscape u [c].
+Definition control_letter (c : N) : bool := ((65 <=? c) && (c <=? 90)) || ((97 <=? c) && (c <=? 122)).
 
 (* DecimalDigits with its MV *)
 Definition decimal_digit (c : N) : bool := (48 <=? c) && (c <=? 57).
@@ -88,6 +99,45 @@ Inductive Braced : list N -> N -> option N -> Prop :=
 | Br_range ds n es m : DecimalDigits ds n -> DecimalDigits es m ->
     Braced (g_lbrace :: ds ++ g_comma :: es ++ [g_rbrace]) n (Some m).
 Definition InvalidBracedQuantifier (q : list N) : Prop := exists n om, Braced q n om.
+
+(* HexDigits with its MV *)
+Definition hex_digit (c : N) : bool :=
+  decimal_digit c || ((65 <=? c) && (c <=? 70)) || ((97 <=? c) && (c <=? 102)).
+Definition hex_digit_value (c : N) : N := if decimal_digit c then c - 48 else if c <=? 70 then c - 55 else c - 87.
+Inductive HexDigits : list N -> N -> Prop :=
+| HD_digit h : hex_digit h = true -> HexDigits [h] (hex_digit_value h)
+| HD_more hs v h : HexDigits hs v -> hex_digit h = true -> HexDigits (hs ++ [h]) (16 * v + hex_digit_value h).
+Definition Hex4Digits (hs : list N) (v : N) : Prop := HexDigits hs v /\ length hs = 4%nat.
+Definition lead_surrogate (v : N) : bool := (55296 <=? v) && (v <=? 56319).     (* D800..DBFF *)
+Definition trail_surrogate (v : N) : bool := (56320 <=? v) && (v <=? 57343).    (* DC00..DFFF *)
+(* the units r begin with `\u` HexTrailSurrogate *)
+Definition trail_escape_follows (r : list N) : Prop :=
+  exists ts w r', Hex4Digits ts w /\ trail_surrogate w = true /\ r = g_backslash :: 117 :: ts ++ r'.
+Inductive RegExpUnicodeEscapeSequence (u : bool) : list N -> list N -> Prop :=
+| UE_pair hs v ts w r : u = true -> Hex4Digits hs v -> lead_surrogate v = true -> Hex4Digits ts w -> trail_surrogate w = true ->
+    RegExpUnicodeEscapeSequence u (117 :: hs ++ g_backslash :: 117 :: ts) r
+| UE_hex4 hs v r : Hex4Digits hs v -> (u = true -> lead_surrogate v = true -> ~ trail_escape_follows r) ->
+    RegExpUnicodeEscapeSequence u (117 :: hs) r
+| UE_code_point ds v r : u = true -> HexDigits ds v -> v <= 1114111 ->
+    RegExpUnicodeEscapeSequence u (117 :: g_lbrace :: ds ++ [g_rbrace]) r.
+
+(* Annex B ordered choice: an alternative of CharacterEscape before IdentityEscape matches at the unit c followed by r,
+   and matches a different text than the unit c alone *)
+Definition earlier_escape_matches (c : N) (r : list N) : Prop :=
+  c = 48 \/
+  (c = 120 /\ exists h1 h2 r', hex_digit h1 = true /\ hex_digit h2 = true /\ r = h1 :: h2 :: r') \/
+  (c = 117 /\ exists hs v r', Hex4Digits hs v /\ r = hs ++ r').
+Definition no_digit_follows (r : list N) : Prop := match r with d :: _ => decimal_digit d = false | [] => True end.
+Inductive CharacterEscape (u : bool) : list N -> list N -> Prop :=
+| CE_control c r : control_escape c = true -> CharacterEscape u [c] r
+| CE_letter c r : control_letter c = true -> CharacterEscape u [99; c] r
+| CE_zero r : no_digit_follows r -> CharacterEscape u [48] r
+| CE_hex h1 h2 r : hex_digit h1 = true -> hex_digit h2 = true -> CharacterEscape u [120; h1; h2] r
+| CE_unicode w r : RegExpUnicodeEscapeSequence u w r -> CharacterEscape u w r
+| CE_identity c r : identity_escape u c = true -> (u = false -> ~ earlier_escape_matches c r) -> CharacterEscape u [c] r.
+Inductive AtomEscape (u : bool) : list N -> list N -> Prop :=
+| AE_class c r : character_class_escape c = true -> AtomEscape u [c] r
+| AE_character w r : CharacterEscape u w r -> AtomEscape u w r.
 
 Inductive QuantifierPrefix : list N -> Prop :=
 | QP_star : QuantifierPrefix [g_star]
@@ -129,7 +179,9 @@ with Atom (u : bool) : list N -> list N -> Prop :=
     (* Annex B: ExtendedPatternCharacter is tried after InvalidBracedQuantifier *)
     (u = false -> forall q r', InvalidBracedQuantifier q -> c :: r <> q ++ r') -> Atom u [c] r
 | At_dot r : Atom u [g_dot] r
-| At_escape c r : AtomEscape u [c] -> assertion_escape c = false -> Atom u [g_backslash; c] r
+| At_escape w r : AtomEscape u w r -> (forall c, w = [c] -> assertion_escape c = false) -> Atom u (g_backslash :: w) r
+| At_backslash_c r : u = false ->     (* Annex B: `\` [lookahead = c], tried after `\` AtomEscape (`c` ControlLetter) *)
+    match r with c :: _ => control_letter c = false | [] => True end -> Atom u [g_backslash] (99 :: r)
 | At_group d r : Disjunction u d (g_rparen :: r) -> Atom u (g_lparen :: d ++ [g_rparen]) r
 | At_noncapturing d r : Disjunction u d (g_rparen :: r) -> Atom u (g_lparen :: g_question :: g_colon :: d ++ [g_rparen]) r.
 
